@@ -296,3 +296,10 @@ VARIANTS += [
  V("c45-p1-reintroduce-F5", "C45", "C45.P1", "scan_internal.go",
    "		return nil, errors.CombineErrors(err, i.Close())\n	}\n\n	// For internal iterators, we skip", "		return nil, err\n	}\n\n	// For internal iterators, we skip"),
 ]
+
+VARIANTS += [
+ V("c31-b1-fast-path-off-by-one", "C31", "C31.B1", "batchrepr/reader.go",
+   "		if len(data) == 0 || data[0] >= byte(len(data)) {", "		if len(data) == 0 || data[0] > byte(len(data)) {"),
+ V("c31-b1-slow-path-check-removed", "C31", "C31.B1", "batchrepr/reader.go",
+   "	if v > uint32(len(data)) {\n		return nil, nil, false\n	}\n	return data[v:], data[:v], true", "	if v > uint32(len(data)) && n > 5 {\n		return nil, nil, false\n	}\n	return data[v:], data[:v], true"),
+]
